@@ -98,6 +98,37 @@ def m_split_to(I, st, t, args, site, depth):
     return [(st, res)]
 
 
+def m_index_range(I, st, t, args, site, depth):
+    """&buf[a..b] / &buf[..b] / &buf[a..] / &buf[..] on a byte buffer: a view (nothing is consumed)"""
+    key = buf_key(I, st, args[0])
+    base = key
+    while isinstance(base, tuple) and base and base[0] in ("deref", "ref"):
+        base = base[1]
+    rng = args[1] if len(args) > 1 else None
+    if isinstance(rng, Ref):
+        rng = I.read_addr(st, rng.root, rng.path)
+    known = base == ("param", "src") or base in st.bufs or (isinstance(base, tuple) and base and base[0] in ("bufslice", "newbuf", "buftail"))
+    if not known or not isinstance(rng, Struct) or not (rng.adt or "").startswith("std::ops::Range"):
+        return None
+    c, _l0 = buf_state(st, base)
+    ln = buf_len(st, base)
+    nm = (rng.adt or "").split("::")[-1]
+    start = rng.get("start") if nm in ("Range", "RangeFrom") else 0
+    end = rng.get("end") if nm in ("Range", "RangeTo") else ln
+    if nm == "RangeFull":
+        start, end = 0, ln
+    if nm not in ("Range", "RangeTo", "RangeFrom", "RangeFull"):
+        return None
+    _oblige(I, st, t, site, "index", end, ln)
+    if nm in ("Range",):
+        _oblige(I, st, t, site, "index", start, end)
+    off = lin_add(c, start, 1)
+    n = lin_add(end, start, -1)
+    if off is None or n is None:
+        return None
+    return [(st, ("bufslice", base, tform(off), tform(n)))]
+
+
 def m_advance(I, st, t, args, site, depth):
     key = buf_key(I, st, args[0])
     n = args[1]
@@ -244,6 +275,8 @@ BUF_MODELS.update(
         "<bytes::Bytes as std::convert::From>::from": m_bytes_from,
         "<bytes::Bytes as std::convert::From<std::vec::Vec<u8>>>::from": m_bytes_from,
         "<bytes::Bytes as std::convert::From<bytes::BytesMut>>::from": m_bytes_from,
+        "std::ops::Index::index": m_index_range,
+        "std::ops::IndexMut::index_mut": m_index_range,
         "bytes::BytesMut::split_to": m_split_to,
         "bytes::Buf::advance": m_advance,
         "bytes::buf::Buf::advance": m_advance,
